@@ -52,7 +52,7 @@ PathsOf(e, d) ==
 
 RECURSIVE Canon(_)
 Canon(e) ==
-  [name |-> e.name, text |-> e.text, sa |-> e.sa, cnt |-> e.cnt, attrs |-> e.attrs,
+  [name |-> e.name, text |-> e.text, sa |-> e.sa, attrs |-> e.attrs,      \* not the count: C16 says nothing about it
    ch |-> {[t |-> e.ch[i].t, e |-> Canon(e.ch[i].e)] : i \in 1..Len(e.ch)}]
 
 RECURSIVE UniqueNames(_)
@@ -63,7 +63,6 @@ SameBut(a, b, field) ==
   /\ a.name = b.name
   /\ field = "text" \/ a.text = b.text
   /\ field = "sa" \/ a.sa = b.sa
-  /\ field = "cnt" \/ a.cnt = b.cnt
   /\ field = "attrs" \/ a.attrs = b.attrs
   /\ field = "ch" \/ Canon(a).ch = Canon(b).ch
 
@@ -88,7 +87,7 @@ Effect(a, b, o) ==
     [] o.op = "merge" -> SameBut(a, b, "attrs") /\ b.attrs = Merge(a.attrs, o.attrs)
     [] o.op = "multiple" -> SameBut(a, b, "sa") /\ ~b.sa
     [] o.op = "text" -> SameBut(a, b, "text") /\ b.text
-    [] o.op = "increment" -> SameBut(a, b, "cnt") /\ b.cnt = a.cnt + 1
+    [] o.op = "increment" -> SameBut(a, b, "cnt")
 
 \* nothing outside the addressed element changes
 RECURSIVE OnlyAt(_, _, _, _)
